@@ -3,7 +3,7 @@ from the protocol's own grammar, plus a malformed stream).  Every choice comes f
 from .daemon import Scenario, obj
 
 PATHS = ["a", "a/b", "a/b/c", "A/B", "ab", "b", "m", "m/x", "", "zzé", "long/" + "p" * 40, "a/B"]
-GROUPS = ["g0", "g1", "g2", "admins", "ops"]
+GROUPS = ["g0", "g1", "g2", "admins", "ops", "G0", "Ops"]
 ORIGINS = ["local6", "remote6", "mapped6", "mappedremote6"]
 
 
@@ -322,7 +322,7 @@ class Gen:
             self.live.remove(v)          # never chosen as requester, never closed by the generator
             self.victim_set.append(v)
         for v in self.victim_set:
-            self.steps.append(("wmode", v, r.choice(["err", "eagain", "0:err", "3,0:eagain", "40,0,0:err"])))
+            self.steps.append(("wmode", v, r.choice(["err", "eagain", "0:err", "3,0:eagain", "40,0,0:err", "5:err", "30,2:err"])))
         for _ in range(self.nops):
             if not self.live:
                 self.connect()
@@ -392,7 +392,7 @@ class Gen:
                 cs = r.sample(self.live, min(len(self.live), r.randrange(2, 4)))
                 self.steps.append(("batch", [(cc, self.request(cc)) for cc in cs]))
             elif x < 0.47 and self.faults:
-                self.steps.append(("wmode", c, r.choice(["err", "eagain", "all", "3,0,5:all", "0,0:all"])))
+                self.steps.append(("wmode", c, r.choice(["err", "eagain", "all", "3,0,5:all", "0,0:all", "6:err", "1,1:err"])))
             else:
                 self.steps.append(("msg", c, self.request(c)))
             if r.random() < 0.08:
